@@ -93,8 +93,13 @@ func (*c14) CoqImport() string {
 }
 func (*c14) Rule() string {
 	return "chart trees (depth <= 3, aliases, conditions/tags that disable subcharts, repeated dependencies) with JSON schemas from the " +
-		"family {type, required, enum, minimum/maximum, nested properties, additionalProperties:false, items, uncompilable bytes} derived " +
-		"from the charts' defaults and then perturbed, placed at any chart level; values arriving from chart defaults, parent sections and " +
+		"family {type, required, enum, minimum/maximum, nested properties, additionalProperties:false, items, uncompilable bytes} or (1/2) given as " +
+		"JSON documents over the larger family of Values/Schema2.v {$schema absent/draft-07/2019-09/2020-12/unknown, $ref to $defs/definitions, const, " +
+		"allOf/anyOf/oneOf/not, if/then/else, additionalProperties schema, propertyNames, dependencies, dependentRequired, dependentSchemas, " +
+		"min/maxProperties, prefixItems+items, contains+min/maxContains, min/maxItems, uniqueItems, (exclusive) bounds, multipleOf, min/maxLength, " +
+		"format as annotation, metaschema-invalid documents}, derived " +
+		"from the charts' defaults and then perturbed, placed at any chart level; plus a catalogue of one-constraint templates x dialects x " +
+		"satisfying/violating values with the drafts' verdict written by hand (schema step alone and through every operation / placement); values arriving from chart defaults, parent sections and " +
 		"user values (with nulls and type changes); operation in {install, install --dry-run, template, upgrade, upgrade --dry-run, lint} x " +
 		"skip-schema-validation x skip-crds x crds/ present. Non-trivial = some chart of the processed tree has a schema and the operation " +
 		"reached the gate; distinct = hash of (case, observation)"
@@ -629,6 +634,7 @@ func (*c14) Corpus() []any {
 	// CRD caveat: crds/ are installed before the values are validated
 	out = append(out, c14Case{Kind: "corpus", Op: "install", Chart: mk(true), Vals: tbl("replicas", -1.0, "subb", tbl("enabled", false))})
 	out = append(out, c14Case{Kind: "corpus", Op: "install", SkipCRDs: true, Chart: mk(true), Vals: tbl("replicas", -1.0, "subb", tbl("enabled", false))})
+	out = append(out, c14SpecCorpus()...)
 	return out
 }
 
